@@ -116,10 +116,26 @@ fn drain_checks(it: &Interp, out: &mut CaseOut) -> Res<()> {
 }
 
 pub fn run_scenario(sc: &Scenario, dir: &Path) -> CaseResult {
+	run_scenario_mode(sc, dir, false)
+}
+
+/// background = the library's own worker threads (always_flush in two thirds of the cases)
+/// drive the pipeline; the stage ops of the history are skipped then.
+pub fn run_scenario_mode(sc: &Scenario, dir: &Path, background: bool) -> CaseResult {
 	let mut out = CaseOut::default();
-	let mut it = Interp::new(&sc.cfg, dir, Interp::universe_of(sc));
+	let mut cfg = sc.cfg.clone();
+	cfg.always_flush = background && sc.ops.len() % 3 != 0;
+	let mut it = Interp::new(&cfg, dir, Interp::universe_of(sc));
+	it.background = background;
 	it.open()?;
-	for op in &sc.ops {
+	let trace = std::env::var("PDBV_TRACE_OPS").is_ok();
+	for (opi, op) in sc.ops.iter().enumerate() {
+		if background && matches!(op, Op::P | Op::F | Op::E | Op::C | Op::R | Op::Drain) {
+			continue
+		}
+		if trace {
+			eprintln!("op {opi}: {}", serde_json::to_string(op).unwrap_or_default().chars().take(300).collect::<String>());
+		}
 		if let Op::Commit(items) = op {
 			let tx = it.resolve(items);
 			let oversize = tx.iter().any(|(_, ch)| matches!(ch, RChange::InsertTree(_, t) if max_fanout(t) > 255));
@@ -160,12 +176,20 @@ pub fn run_scenario(sc: &Scenario, dir: &Path) -> CaseResult {
 			drain_checks(&it, &mut out)?;
 		}
 	}
+	if background {
+		// continue without worker threads for the final checks
+		it.background = false;
+		it.cfg.always_flush = false;
+		it.step(&Op::Reopen)?;
+		out.label("background-workers");
+	}
 	it.step(&Op::Drain)?;
 	it.check_reads(true)?;
 	drain_checks(&it, &mut out)?;
 	it.step(&Op::Reopen)?;
 	it.check_reads(true)?;
 	drain_checks(&it, &mut out)?;
+	out.excluded_known_count(it.excluded_known.get());
 	let c = &sc.cfg.cols[0];
 	out.label(if c.append_only {
 		"variant-append-only"
@@ -197,6 +221,13 @@ fn run(ctx: &Ctx) {
 			return
 		}
 	}
+	if !growth_shard {
+		// the same histories with the library's own worker threads
+		let n = scaled(ctx, 1_000, 20_000);
+		if !ctx.run_prop("trees-bg", n, scenario(40), |sc, dir| run_scenario_mode(sc, dir, true)) {
+			return
+		}
+	}
 	// growth of the reference-count table: needs a base database of ~1M nodes (built once per
 	// shard), so only a small slice runs in the quick tier
 	if ctx.tier == "thorough" || growth_shard || std::env::var("PDBV_ONLY_SUB").is_ok() {
@@ -222,6 +253,13 @@ fn run(ctx: &Ctx) {
 fn replay(ctx: &Ctx, path: &Path) -> Result<(), Failure> {
 	let v: serde_json::Value = serde_json::from_str(&std::fs::read_to_string(path).map_err(|e| Failure::new("bad-replay", e.to_string()))?)
 		.map_err(|e| Failure::new("bad-replay", e.to_string()))?;
+	if v.get("sub").and_then(|s| s.as_str()) == Some("trees-bg") {
+		let (_s, sc): (String, Scenario) = load_replay(path).map_err(|e| Failure::new("bad-replay", e))?;
+		for _ in 0..20 {
+			guarded(|| run_scenario_mode(&sc, &ctx.case_dir(), true)).map(|_| ())?;
+		}
+		return Ok(())
+	}
 	if v.get("sub").and_then(|s| s.as_str()).map_or(false, |s| s.starts_with("refcount-growth")) {
 		let (_s, case): (String, super::refgrow::RgCase) = load_replay(path).map_err(|e| Failure::new("bad-replay", e))?;
 		let base_dir = ctx.scratch.join("refgrow-base");
